@@ -126,7 +126,20 @@ pub fn diag_json(e: &penne::alpha::Error) -> Value {
     });
     if RENDER.with(|r| r.get()) && budget > 0 {
         let sources = SOURCES.with(|s| s.borrow().clone());
-        v["render"] = Value::Array(render_all(e, &sources));
+        let r = render_all(e, &sources);
+        // compact form when all four renderings are fine (status ok, code shown, no ESC without colour,
+        // no foreign non-ASCII character with the ascii charset)
+        let clean = r.iter().all(|x| {
+            x["status"] == "ok"
+                && x["has_code"] == true
+                && (x["color"] == true || x["esc"] == false)
+                && (x["ascii"] == false || x["foreign"] == "")
+        });
+        if clean {
+            v["r4"] = json!(true);
+        } else {
+            v["render"] = Value::Array(r);
+        }
     }
     v
 }
